@@ -7,9 +7,10 @@ from common import Driver
 
 
 def injective_partial_maps(n):
-    """all non-empty injective partial maps {0..n-1} -> {0..n-1} as dicts"""
+    """all injective partial maps {0..n-1} -> {0..n-1} as dicts, the empty one (two consecutive datasets that share
+    no sample) included"""
     out = []
-    for r in range(1, n + 1):
+    for r in range(0, n + 1):
         for keys in itertools.combinations(range(n), r):
             for vals in itertools.permutations(range(n), r):
                 out.append(dict(zip(keys, vals)))
@@ -72,7 +73,7 @@ def run(ctx):
     from umap.aligned_umap import expand_relations, procrustes_align
     rng = ctx.rng
     maps = injective_partial_maps(3)
-    ctx.rule = ("exhaustive: every sequence of 1..2 (quick) / 1..3 (thorough) non-empty injective partial relation dicts on <=3 samples "
+    ctx.rule = ("exhaustive: every sequence of 1..2 (quick) / 1..3 (thorough) injective partial relation dicts (the empty one included) on <=3 samples "
                 "x window 1..2 (whole tensor compared exactly with the Lean model and with an independent composition); plus random larger "
                 "instances (<=6 datasets, <=8 samples, window<=4); non-trivial = some forward relation reaches the last dataset through >=2 dicts")
     drv = Driver()
@@ -82,7 +83,13 @@ def run(ctx):
         for dicts in itertools.product(maps, repeat=L):
             for w in (1, 2):
                 dicts = list(dicts)
-                T = expand_relations(dicts, w)
+                try:
+                    T = expand_relations(dicts, w, 3)
+                except Exception as e:  # noqa
+                    ctx.violation("exception", f"expand_relations raised {type(e).__name__}: {e}",
+                                  {"relation_dicts": [{str(k): v for k, v in d.items()} for d in dicts], "window": w},
+                                  key="C19:expand_relations-exception")
+                    continue
                 maxn = T.shape[2]
                 h = rel_line(drv, dicts, w, maxn)
                 pend.append((h, dicts, w, T))
@@ -93,11 +100,17 @@ def run(ctx):
         w = int(rng.integers(1, 5))
         dicts = []
         for _ in range(L):
-            r = int(rng.integers(1, ns + 1))
+            r = int(rng.integers(0 if rng.random() < 0.2 else 1, ns + 1))
             keys = rng.choice(ns, r, replace=False)
             vals = rng.choice(ns, r, replace=False)
             dicts.append({int(a): int(b) for a, b in zip(keys, vals)})
-        T = expand_relations(dicts, w)
+        try:
+            T = expand_relations(dicts, w, ns)
+        except Exception as e:  # noqa
+            ctx.violation("exception", f"expand_relations raised {type(e).__name__}: {e}",
+                          {"relation_dicts": [{str(k): v for k, v in d.items()} for d in dicts], "window": w},
+                          key="C19:expand_relations-exception")
+            continue
         h = rel_line(drv, dicts, w, T.shape[2])
         pend.append((h, dicts, w, T))
     outs = drv.run()
@@ -137,23 +150,51 @@ def run(ctx):
             ctx.violation("procrustes-rigid", f"pairwise distances change by {np.max(np.abs(pdist(out) - pdist(B)))}", case)
         ctx.case(key="procrustes" + str(case), nontrivial=False, procrustes=True)
 
-    # AlignedUMAP.fit on small inputs
+    # AlignedUMAP.fit on small inputs: shapes, finiteness, and the anchors handed to the rigid pre-alignment
+    # (recorded by a harness-side wrapper): dataset i is aligned onto dataset i-1 through exactly the pairs of relation i-1,
+    # whatever window the constructor or the fit call names, and also when a relation is empty
     import umap
-    nfit = 4 if ctx.thorough else 1
+    import umap.aligned_umap as AU
+    nfit = 6 if ctx.thorough else 3
     for t in range(nfit):
-        nd = int(rng.integers(2, 4))
+        nd = int(rng.integers(2, 4)) if t else 3
         n = 40
         base = rng.normal(size=(n + 10 * nd, 4)).astype(np.float32)
         Xs = [base[10 * i: 10 * i + n] + 0.01 * rng.normal(size=(n, 4)).astype(np.float32) for i in range(nd)]
         rels = [{j + 10: j for j in range(n - 10)} for _ in range(nd - 1)]
+        if t == 1:
+            rels[-1] = {}                      # no shared sample between the last two datasets
         nc = int(rng.choice([2, 3]))
-        case = {"n_datasets": nd, "n": n, "n_components": nc}
+        cw = int(rng.integers(1, 4))
+        fw = [None, 1, 2, 4][t % 4] if t != 0 else (2 if cw != 2 else 4)       # a window given to fit that differs from the constructor's
+        case = {"n_datasets": nd, "n": n, "n_components": nc, "alignment_window_size": cw, "fit_window_size": fw,
+                "empty_relation": t == 1}
+        seen = []
+        orig = AU.procrustes_align
+
+        def spy(a, b, anchors, _orig=orig):
+            seen.append(np.asarray(anchors).copy())
+            return _orig(a, b, anchors)
+        AU.procrustes_align = spy
         try:
+            kw = {} if fw is None else {"window_size": fw}
             m = umap.AlignedUMAP(n_neighbors=5, n_components=nc, n_epochs=20, random_state=3,
-                                 alignment_window_size=int(rng.integers(1, 3))).fit(Xs, relations=rels)
+                                 alignment_window_size=cw).fit(Xs, relations=rels, **kw)
             for e in m.embeddings_:
                 if e.shape != (n, nc) or not np.all(np.isfinite(e)):
                     ctx.violation("fit-embeddings", f"embedding shape {e.shape}, finite={bool(np.all(np.isfinite(e)))}", case)
+            if len(seen) != nd - 1:
+                ctx.violation("fit-prealignment", f"{len(seen)} pre-alignments for {nd} datasets", case)
+            for i_, an in enumerate(seen):
+                got = sorted(zip(an[0].tolist(), an[1].tolist()))
+                want = sorted((k, v) for k, v in rels[i_].items())        # (sample of dataset i, its partner in dataset i+1)
+                if got != want:
+                    ctx.violation("fit-prealignment", f"dataset {i_ + 1} is pre-aligned onto dataset {i_} through {len(got)} anchor pairs "
+                                                      f"that are not relation {i_} ({len(want)} pairs); first differing: "
+                                                      f"{(got or [None])[0]} vs {(want or [None])[0]}", case)
+                    break
         except Exception as e:  # noqa
             ctx.violation("fit-exception", f"AlignedUMAP.fit raised {type(e).__name__}: {e}", case)
+        finally:
+            AU.procrustes_align = orig
         ctx.case(key="fit" + str(case), nontrivial=False, aligned_fit=True)
